@@ -1,6 +1,8 @@
 import NfcVerif.Lemmas.DesBytes
 import NfcVerif.Lemmas.Mac
 import NfcVerif.Lemmas.Auth
+import NfcVerif.Lemmas.AuthHist
+import NfcVerif.Lemmas.AuthCard
 /-!
 # C20 - Tag authentication and MAC-protected reads cannot be fooled
 
@@ -10,6 +12,13 @@ DES and two-key triple DES), `Model/Mac.lean` (`FelicaLite.generate_mac` over
 an abstract cipher), `Model/Auth.lean` (reader side of FeliCa Lite / Lite-S /
 NTAG21x authentication, `read_with_mac`, `write_with_mac`, key provisioning,
 and the tags of the manuals).
+
+Second part (below `## histories`): the same methods as methods of ONE tag object whose attributes
+live on from call to call, against an air interface that is an arbitrary state machine
+(`Model/AuthHist.lean`), and against the stateful card of the manuals (`Model/AuthCard.lean`):
+every session of every history is decided by its own challenge and the frames that arrive in it,
+`write_with_mac` reads the write counter from the card in every call, `read_with_mac` sends one
+command for all blocks, mutual authentication succeeds in every card state.
 
 NOT claimed (cryptographic assumptions, see the meta note): unforgeability of
 the MAC without the key, absence of collisions between messages that differ in
@@ -249,5 +258,271 @@ theorem auth_sound_partial (C : Cipher) (idm pw rc rsp1 rsp2 : Bytes) (s : Optio
       ∧ generateMac C (slice data 0 (-16)) sk (rc.take 8) false = .ok (slice data (-16) (-8))
       ∧ s = some ⟨sk, rc.take 8⟩ :=
   lite_auth_true C idm pw rc rsp1 rsp2 s h
+
+/-! ## histories: many calls on one tag object -/
+
+open NfcVerif.AuthHist NfcVerif.AuthHist.RW NfcVerif.AuthCard
+
+/-- EVERY session of EVERY history (FeliCa Lite): take any air interface `x` (any card, any attacker,
+as a state machine), any start state, any calls `pre` before and `post` after.  If call number
+`pre.length`, `authenticate(pw)` with the challenge `rc` that `os.urandom(16)` returned in THAT call,
+returns True, then: the command that wrote the challenge block carried THIS `rc`; it and the read of
+the ID and MAC blocks were answered during THIS call by `rsp1`, `rsp2` (after at most two unanswered
+attempts each); the MAC field of `rsp2` equals `generate_mac` of the received ID block under the
+session key derived from the password and THIS challenge (all eight octets); and exactly that
+session is what the tag object holds afterwards.  Nothing that happened in `pre` - an earlier
+challenge, an earlier session key, an earlier verdict - takes part. -/
+theorem session_sound_every_history {σ : Type} (C : Cipher) (forget : Bool) (x : Air σ) (idm pw rc : Bytes)
+    (pre post : List (Op σ)) (s0 : St σ)
+    (h : (run C forget x idm false (pre ++ .auth pw rc :: post) s0).1[pre.length]? = some (.ok (.bool true))) :
+    ∃ key sk c1 c2 rsp1 rsp2 data t1,
+      liteKey pw = .ok key ∧ sessionKey C key rc = .ok sk
+      ∧ liteChallengeCmd idm rc = .ok c1 ∧ readCmd idm [0x82, 0x81] = .ok c2
+      ∧ Answered c1 rsp1 (run C forget x idm false pre s0).2.tr t1
+      ∧ Answered c2 rsp2 t1 (run C forget x idm false (pre ++ [.auth pw rc]) s0).2.tr
+      ∧ readRsp idm [0x82, 0x81] rsp2 = .ok data
+      ∧ generateMac C (slice data 0 (-16)) sk (rc.take 8) false = .ok (slice data (-16) (-8))
+      ∧ (run C forget x idm false (pre ++ [.auth pw rc]) s0).2.rd = ⟨some ⟨sk, rc.take 8⟩, true⟩ := by
+  rw [run_result_at] at h
+  injection h with h
+  rcases hs : step C forget x idm false (.auth pw rc) (run C forget x idm false pre s0).2 with ⟨r, s'⟩
+  rw [hs] at h
+  simp only at h
+  subst h
+  obtain ⟨c1, c2, rsp1, rsp2, sess, t1, hc1, hc2, ha1, ha2, hla, hrd⟩ :=
+    authLite_true C forget x idm (step_auth_lite C forget x idm hs)
+  obtain ⟨key, sk, data, hkey, hsk, hdata, hmac, hsess⟩ := lite_auth_true C idm pw rc rsp1 rsp2 sess hla
+  refine ⟨key, sk, c1, c2, rsp1, rsp2, data, t1, hkey, hsk, hc1, hc2, ha1, ?_, hdata, hmac, ?_⟩
+  · rw [run_state_snoc, hs]; exact ha2
+  · rw [run_state_snoc, hs, hrd, hsess]
+
+/-- the 16 octets the challenge command writes to the RC block are the challenge of this call
+(byte order of the card), for every state of everything else -/
+theorem challenge_written_is_session_challenge (idm rc c1 : Bytes) (hidm : idm.length = 8) (hrc : rc.length = 16)
+    (h : liteChallengeCmd idm rc = .ok c1) : c1.drop 16 = revHalves rc :=
+  challenge_block idm rc c1 hidm hrc h
+
+/-- EVERY session of EVERY history (FeliCa Lite-S, mutual authentication): if call number
+`pre.length` returns True then five commands were answered DURING THAT CALL - the write of this
+call's challenge, the ID read, the WCNT read, the MAC'ed STATE write whose MAC_A is computed from
+the WCNT answer of this call (`writeWithMacCmd ... rsp3`), the MAC'ed STATE read - and the pure
+verdict function of these five answers and this call's challenge is True. -/
+theorem session_sound_every_history_lite_s {σ : Type} (C : Cipher) (forget : Bool) (x : Air σ) (idm pw rc : Bytes)
+    (pre post : List (Op σ)) (s0 : St σ)
+    (h : (run C forget x idm true (pre ++ .auth pw rc :: post) s0).1[pre.length]? = some (.ok (.bool true))) :
+    ∃ c1 c2 c3 c4 c5 rsp1 rsp2 rsp3 rsp4 rsp5 sess,
+      liteChallengeCmd idm rc = .ok c1 ∧ readCmd idm [0x82, 0x81] = .ok c2 ∧ readCmd idm [0x90] = .ok c3
+      ∧ writeWithMacCmd C idm sess ([1] ++ zeros 15) 0x92 rsp3 = .ok c4 ∧ readCmd idm [0x92, 0x81] = .ok c5
+      ∧ Answers [(c1, rsp1), (c2, rsp2), (c3, rsp3), (c4, rsp4), (c5, rsp5)]
+          (run C forget x idm true pre s0).2.tr (run C forget x idm true (pre ++ [.auth pw rc]) s0).2.tr
+      ∧ liteAuthenticate C idm pw rc rsp1 rsp2 = .ok (true, sess)
+      ∧ liteSAuthenticate C idm pw rc rsp1 rsp2 rsp3 rsp4 rsp5 = .ok true
+      ∧ (run C forget x idm true (pre ++ [.auth pw rc]) s0).2.rd = ⟨sess, true⟩ := by
+  rw [run_result_at] at h
+  injection h with h
+  rcases hs : step C forget x idm true (.auth pw rc) (run C forget x idm true pre s0).2 with ⟨r, s'⟩
+  rw [hs] at h
+  simp only at h
+  subst h
+  obtain ⟨c1, c2, c3, c4, c5, rsp1, rsp2, rsp3, rsp4, rsp5, sess, h1, h2, h3, h4, h5, ha, hla, hls, hrd⟩ :=
+    authLiteS_true C forget x idm (step_auth_liteS C forget x idm hs)
+  refine ⟨c1, c2, c3, c4, c5, rsp1, rsp2, rsp3, rsp4, rsp5, sess, h1, h2, h3, h4, h5, ?_, hla, hls, ?_⟩
+  · rw [run_state_snoc, hs]; exact ha
+  · rw [run_state_snoc, hs, hrd]
+
+/-- `FelicaLite.authenticate` never looks at `_sk`, `_iv`, `_authenticated`: in two states of the tag
+object over the same world the call has the same outcome (verdict or exception), makes the same
+exchanges and leaves the same world - there is nothing an implementation of this model could cache
+from one authentication to the next. -/
+theorem auth_verdict_independent_of_object_state {σ : Type} (C : Cipher) (forget : Bool) (x : Air σ) (idm pw rc : Bytes)
+    (rd1 rd2 : Reader) (w : σ) (tr : List (Bytes × Option Bytes)) :
+    (authLite C forget x idm pw rc ⟨rd1, w, tr⟩).1 = (authLite C forget x idm pw rc ⟨rd2, w, tr⟩).1
+    ∧ (authLite C forget x idm pw rc ⟨rd1, w, tr⟩).2.w = (authLite C forget x idm pw rc ⟨rd2, w, tr⟩).2.w
+    ∧ (authLite C forget x idm pw rc ⟨rd1, w, tr⟩).2.tr = (authLite C forget x idm pw rc ⟨rd2, w, tr⟩).2.tr := by
+  obtain ⟨h1, h2, h3⟩ := authLite_blind C forget x idm pw rc ⟨rd1, w, tr⟩ ⟨rd2, w, tr⟩ ⟨rfl, rfl⟩
+  exact ⟨h1, h2, h3⟩
+
+theorem readRsp_length (idm : Bytes) (blocks : List Nat) (rsp data : Bytes) (h : readRsp idm blocks rsp = .ok data) :
+    data.length = blocks.length * 16 := by
+  unfold readRsp at h
+  rcases Py.bind_eq_ok.mp h with ⟨d, _, h⟩
+  split at h
+  · cases h
+  · rename_i hl
+    injection h with h
+    subst h
+    simp only [List.length_drop]
+    omega
+
+/-- EVERY `read_with_mac` of EVERY history, for ANY number of blocks: if call number `pre.length`
+returns data `d`, then ONE command `c` asked for all the blocks plus the MAC block (it was
+answered during this call by `rsp`, after at most two unanswered attempts), `d` has 16 octets for
+every requested block, the MAC field of `rsp` equals `generate_mac` over ALL of `d` under the
+session the tag object held (there is no returned block outside the verified MAC), and the tag
+object is unchanged. -/
+theorem read_covered_every_history {σ : Type} (C : Cipher) (forget : Bool) (x : Air σ) (idm : Bytes) (liteS : Bool)
+    (blocks : List Nat) (d : Bytes) (pre post : List (Op σ)) (s0 : St σ)
+    (h : (run C forget x idm liteS (pre ++ .readMac blocks :: post) s0).1[pre.length]? = some (.ok (.data (some d)))) :
+    ∃ sess c rsp data,
+      (run C forget x idm liteS pre s0).2.rd.sess = some sess
+      ∧ readCmd idm (blocks ++ [0x81]) = .ok c
+      ∧ Answered c rsp (run C forget x idm liteS pre s0).2.tr (run C forget x idm liteS (pre ++ [.readMac blocks]) s0).2.tr
+      ∧ readRsp idm (blocks ++ [0x81]) rsp = .ok data ∧ d = slice data 0 (-16)
+      ∧ d.length = 16 * blocks.length
+      ∧ generateMac C d sess.sk sess.iv false = .ok (slice data (-16) (-8))
+      ∧ (run C forget x idm liteS (pre ++ [.readMac blocks]) s0).2.rd = (run C forget x idm liteS pre s0).2.rd := by
+  rw [run_result_at] at h
+  injection h with h
+  rcases hs : step C forget x idm liteS (.readMac blocks) (run C forget x idm liteS pre s0).2 with ⟨r, s'⟩
+  rw [hs] at h
+  simp only at h
+  subst h
+  obtain ⟨sess, c, rsp, hsess, hc, ha, hv, hrd⟩ := readMac_some C x idm (step_readMac C forget x idm hs)
+  obtain ⟨data, hdata, hd, hmac⟩ := readWithMac_some C idm sess blocks rsp d hv
+  have hlen := readRsp_length idm (blocks ++ [0x81]) rsp data hdata
+  refine ⟨sess, c, rsp, data, hsess, hc, ?_, hdata, hd, ?_, hmac, ?_⟩
+  · rw [run_state_snoc, hs]; exact ha
+  · rw [hd]
+    unfold slice
+    rw [clampBound_zero, clampBound_neg _ 16 (-16) (by simp) (by omega) (by rw [hlen]; simp; omega)]
+    simp [hlen]; omega
+  · rw [run_state_snoc, hs, hrd]
+
+/-- `write_with_mac(data, block)` in ANY state of tag object and world: when the call completes,
+the write counter that went into MAC_A and into the command is the one the card delivered IN THIS
+CALL (`rspW` answers the read of block 90h that this call sent first); no counter kept by the tag
+object exists in the model. -/
+theorem write_counter_read_in_every_write {σ : Type} (C : Cipher) (x : Air σ) (idm data : Bytes) (block : Nat) (s s' : St σ)
+    (h : writeMac C x idm data block s = (.ok (), s')) :
+    ∃ sess c0 rspW c rsp t1, s.rd.sess = some sess ∧ readCmd idm [0x90] = .ok c0 ∧ Answered c0 rspW s.tr t1
+      ∧ writeWithMacCmd C idm (some sess) data block rspW = .ok c ∧ Answered c rsp t1 s'.tr
+      ∧ writeRsp idm rsp = .ok () ∧ s'.rd = s.rd :=
+  writeMac_ok C x idm h
+
+/-- The repaired behaviour (`forget = true`, fixes/C20/0003): an authentication that does not
+return True - refused, or ended by a `TagCommandError` - leaves NO session in the tag object,
+whatever an earlier authentication had established, and `read_with_mac` then raises RuntimeError
+without sending anything. -/
+theorem failed_auth_leaves_no_session_repaired {σ : Type} (C : Cipher) (x : Air σ) (idm pw rc key : Bytes) (s : St σ)
+    (blocks : List Nat) (hk : liteKey pw = .ok key) (h : (authLite C true x idm pw rc s).1 ≠ .ok true) :
+    (authLite C true x idm pw rc s).2.rd = ⟨none, false⟩
+    ∧ readMac C x idm blocks (authLite C true x idm pw rc s).2 = (.error .runtime, (authLite C true x idm pw rc s).2) := by
+  have h1 := failed_auth_forgets C x idm hk h
+  exact ⟨h1, readMac_no_session C x idm (by rw [h1])⟩
+
+/-- the identity "cipher": enough to run concrete histories inside the kernel -/
+def idC : Cipher := fun _ b => b
+def idm0 : Bytes := [1, 2, 3, 4, 5, 6, 7, 8]
+
+/-- a device that knows no key: it acknowledges every write and answers every read with one and
+the same frame - the one it overheard when the genuine card answered the first authentication
+(key, challenge and ID block all zero, MAC 00..00 under the identity cipher) -/
+def parrot : Air Unit := fun w cmd =>
+  (some (if (cmd.drop 1).take 1 = [8] then writeOk idm0 else rspFrame idm0 6 ([2] ++ zeros 32)), w)
+
+def staleHistory : List (Op Unit) :=
+  [.auth (zeros 16) (zeros 16), .auth (zeros 16) (List.replicate 16 1), .readMac [1]]
+
+/-- Finding `stale-session-after-failed-auth` (the code as found, `forget = false`): the first
+authentication succeeds, the second one - another challenge, the device replays the old answer -
+is refused as it must, and yet `read_with_mac` returns the replayed frame's data, verified under
+the session key of the FIRST authentication.  `failed_auth_leaves_no_session_repaired` is false
+for `forget = false`. -/
+theorem stale_session_counterexample :
+    (run idC false parrot idm0 false staleHistory ⟨Reader.init, (), []⟩).1
+      = [.ok (.bool true), .ok (.bool false), .ok (.data (some (zeros 16)))] := by decide +kernel
+
+/-- the same history on the repaired code: RuntimeError("authentication required") -/
+theorem stale_session_repaired_example :
+    (run idC true parrot idm0 false staleHistory ⟨Reader.init, (), []⟩).1
+      = [.ok (.bool true), .ok (.bool false), .error .runtime] := by decide +kernel
+
+example : (run idC false parrot idm0 false (staleHistory.take 1 ++ .auth (zeros 16) (List.replicate 16 1) :: [.readMac [1]])
+    ⟨Reader.init, (), []⟩).1[(staleHistory.take 1).length]? = some (.ok (.bool false)) := by decide +kernel
+
+/-- non-vacuity of `session_sound_every_history` / `read_covered_every_history`: a history with a
+successful session and a successful MAC'ed read -/
+example : (run idC false parrot idm0 false ([] ++ .auth (zeros 16) (zeros 16) :: [.readMac [1]]) ⟨Reader.init, (), []⟩).1[0]?
+    = some (.ok (.bool true)) := by decide +kernel
+example : (run idC false parrot idm0 false ([.auth (zeros 16) (zeros 16)] ++ .readMac [1] :: []) ⟨Reader.init, (), []⟩).1[1]?
+    = some (.ok (.data (some (zeros 16)))) := by decide +kernel
+
+/-! ### against the stateful card of the manuals -/
+
+/-- Mutual authentication succeeds in EVERY card state (the C20-r2m3 class: counters are read from
+the card): take a Lite-S card that holds the key of `pw` in the layout `protect` writes
+(`Holds`: nothing is assumed about the value of its write counter, its challenge block, its
+authentication status, MC or the user blocks) and ANY state of the tag object; `authenticate(pw)`
+with any challenge returns True, the session is the one of this challenge, the card is externally
+authenticated, has counted two more writes and still `Holds` the key - so the statement applies
+again to the next call, whatever was written in between. -/
+theorem mutual_auth_complete_every_card_state (C : Cipher) (hC : BlockCipher C) (forget : Bool) (c : Card)
+    (idm pw key rc : Bytes) (rd : Reader) (tr : List (Bytes × Option Bytes))
+    (h : Holds c idm key) (hkey : liteKey pw = .ok key) (hrc : rc.length = 16) (hrcB : IsBytes rc) :
+    (∃ sk tr', sessionKey C key rc = .ok sk ∧
+      authLiteS C forget (honest C) idm pw rc ⟨rd, c, tr⟩
+        = (.ok true, ⟨⟨some ⟨sk, rc.take 8⟩, true⟩, afterAuth c rc, tr'⟩))
+    ∧ Holds (afterAuth c rc) idm key ∧ (afterAuth c rc).extAuth = true :=
+  authLiteS_card C hC forget c idm pw key rc rd tr h hkey hrc hrcB
+
+/-- a card that `Holds` the factory key, with write counter FF FF 00 -/
+def card0 : Card :=
+  Card.ofBlocks true idm0 [(0x80, zeros 16), (0x82, idm0 ++ zeros 8), (0x87, zeros 16), (0x88, [0xFF, 0xFF, 0xFF, 0, 7] ++ zeros 11),
+    (0x90, [0xFF, 0xFF, 0] ++ zeros 13), (0x92, zeros 16), (5, zeros 16)] false false
+
+example : Holds card0 idm0 (zeros 16) :=
+  ⟨rfl, rfl, rfl, rfl, rfl, ⟨_, rfl, rfl, by decide⟩, ⟨_, rfl, rfl, by decide⟩, rfl, rfl⟩
+
+example : liteKey [] = .ok (zeros 16) := by decide
+
+/-- Every session of a history of authentications succeeds: each `authenticate` meets a card whose
+write counter was advanced by all the writes before it. -/
+theorem every_session_complete (C : Cipher) (hC : BlockCipher C) (forget : Bool) (idm key : Bytes)
+    (calls : List (Bytes × Bytes)) (hcalls : ∀ p ∈ calls, liteKey p.1 = .ok key ∧ p.2.length = 16 ∧ IsBytes p.2)
+    (c : Card) (rd : Reader) (tr : List (Bytes × Option Bytes)) (h : Holds c idm key) :
+    (run C forget (honest C) idm true (calls.map fun p => Op.auth p.1 p.2) ⟨rd, c, tr⟩).1
+      = calls.map fun _ => .ok (.bool true) :=
+  sessions_card C hC forget idm key calls hcalls c rd tr h
+
+/-- `authenticate`, `write_with_mac(data, n)`, `authenticate` (the history of C20-r2m3): against the
+card that holds the key and lets block `n` be written, all three calls succeed for EVERY initial
+write counter, the block holds the data, the tag object is authenticated. -/
+theorem auth_write_auth_complete (C : Cipher) (hC : BlockCipher C) (forget : Bool) (c : Card) (idm pw key rc1 rc2 data : Bytes)
+    (n : Nat) (rd : Reader) (tr : List (Bytes × Option Bytes)) (h : Holds c idm key) (hkey : liteKey pw = .ok key)
+    (hrc1 : rc1.length = 16) (hrc1B : IsBytes rc1) (hrc2 : rc2.length = 16) (hrc2B : IsBytes rc2)
+    (hn : n < 14) (hpn : c.present n = true) (hrw : c.mcBit 0 n = true) (hd : data.length = 16) (hdB : IsBytes data) :
+    let r := run C forget (honest C) idm true [.auth pw rc1, .writeMac data n, .auth pw rc2] ⟨rd, c, tr⟩
+    r.1 = [.ok (.bool true), .ok .unit, .ok (.bool true)] ∧ r.2.w.mem n = some data ∧ r.2.rd.authed = true :=
+  auth_write_auth_card C hC forget c idm pw key rc1 rc2 data n rd tr h hkey hrc1 hrc1B hrc2 hrc2B hn hpn hrw hd hdB
+
+example : card0.present 5 = true ∧ card0.mcBit 0 5 = true := by decide
+
+/-! ### frames of any length, PWD_AUTH answers of any length -/
+
+/-- a frame shorter than the 12 octets of length, code, IDm and status flags is refused with
+`TagCommandError(RSP_LENGTH_ERROR)`, never indexed -/
+theorem short_frame_refused (idm : Bytes) (code : Nat) (rsp : Bytes) (h : rsp.length < 12) :
+    t3Response idm code rsp = .error (.tagCmd 1) := by
+  unfold t3Response
+  rw [if_pos h]
+
+/-- NTAG21x: `authenticate` is True only for an answer of EXACTLY two octets (the C20-m3 / r2m4
+class: an empty answer, a one-octet NAK that equals the first PACK octet, PACK followed by more
+octets are all refused) -/
+theorem ntag_auth_true_length (pw r : Bytes) (h : ntagAuthenticate pw (.ok r) = .ok true) : r.length = 2 := by
+  unfold ntagAuthenticate at h
+  rcases Py.bind_eq_ok.mp h with ⟨key, hk, h⟩
+  have hl := ntagKey_length pw key hk
+  simp only at h
+  injection h with h
+  have := of_decide_eq_true h
+  rw [this]
+  simp [hl]
+
+example : ntagAuthenticate [1, 2, 3, 4, 0, 0] (.ok [0]) = .ok false := by decide
+example : ntagAuthenticate [] (.ok [0]) = .ok false := by decide
+example : ntagAuthenticate [] (.ok []) = .ok false := by decide
+example : ntagAuthenticate [] (.ok [0, 0, 0]) = .ok false := by decide
+example : ntagAuthenticate [] (.ok [0, 0]) = .ok true := by decide
 
 end NfcVerif.C20
